@@ -175,6 +175,9 @@ func genRingCase(t *rapid.T) RingCase {
 	for k := rapid.IntRange(0, 3).Draw(t, "seedRings"); k > 0; k-- {
 		c.Ops = append(c.Ops, Op{K: rapid.SampledFrom([]string{"of", "of", "new"}).Draw(t, "mk"), A: rapid.IntRange(0, 6).Draw(t, "n")})
 	}
+	if rapid.IntRange(0, 7).Draw(t, "big") == 0 {
+		c.Ops = append(c.Ops, Op{K: rapid.SampledFrom([]string{"newBig", "ofBig", "ofBig"}).Draw(t, "bigKind"), A: rapid.IntRange(0, 15).Draw(t, "bigSize")})
+	}
 	nSeed := len(c.Ops)
 	c.Ops = append(c.Ops, genOps(t, ringKinds, 40, func(t *rapid.T, op *Op) {
 		switch op.K {
